@@ -148,6 +148,163 @@ fn stop_aware_ok(stmts: &[syn::Stmt], top: bool) -> bool {
     !top
 }
 
+// ---------------------------------------------------------------------------------------------
+// determinism scan: the theorems quantify over rule *functions* of the message.  That is justified
+// when the rule code reads no clock / RNG / interior-mutable state and never iterates a container
+// whose iteration order is unspecified (std HashSet / HashMap).  Membership-only use
+// (insert / contains / get / len ...) of such a container is order-free and accepted.
+
+const ORDER_FREE: [&str; 14] = ["insert", "contains", "contains_key", "get", "get_mut", "len", "is_empty", "remove", "entry", "clear", "reserve", "extend", "clone", "with_capacity"];
+const IMPURE: [&str; 12] = ["thread_rng", "SystemTime", "Instant", "RefCell", "Cell", "AtomicUsize", "AtomicU64", "AtomicBool", "OnceLock", "OnceCell", "lazy_static", "now"];
+
+struct Scan<'a> {
+    unordered_fns: &'a [String],
+    unordered_vars: Vec<String>,
+    sites: Vec<String>,
+    fname: String,
+}
+
+fn mentions_unordered(t: &str) -> bool {
+    t.contains("HashSet") || t.contains("HashMap")
+}
+
+impl<'a> Scan<'a> {
+    fn expr_is_unordered(&self, e: &syn::Expr) -> bool {
+        let e = strip_ref(e);
+        match e {
+            syn::Expr::Path(p) => p.path.get_ident().map(|i| self.unordered_vars.contains(&i.to_string())).unwrap_or(false),
+            syn::Expr::MethodCall(m) => {
+                (self.unordered_fns.contains(&m.method.to_string()) && norm(&tokens(&*m.receiver)) == "self")
+                    || (self.expr_is_unordered(&m.receiver) && ["clone", "iter", "into_iter", "keys", "values", "drain", "union", "intersection", "difference", "symmetric_difference"].contains(&m.method.to_string().as_str()))
+            }
+            syn::Expr::Call(c) => {
+                let f = norm(&tokens(&*c.func));
+                mentions_unordered(&f) || self.unordered_fns.iter().any(|u| f.ends_with(&format!("::{u}")) || &f == u)
+            }
+            syn::Expr::Paren(p) => self.expr_is_unordered(&p.expr),
+            _ => false,
+        }
+    }
+}
+
+fn strip_ref(e: &syn::Expr) -> &syn::Expr {
+    match e {
+        syn::Expr::Reference(r) => strip_ref(&r.expr),
+        syn::Expr::Paren(p) => strip_ref(&p.expr),
+        _ => e,
+    }
+}
+
+impl<'a, 'ast> syn::visit::Visit<'ast> for Scan<'a> {
+    fn visit_local(&mut self, l: &'ast syn::Local) {
+        let (name, ty) = match &l.pat {
+            syn::Pat::Ident(pi) => (Some(pi.ident.to_string()), String::new()),
+            syn::Pat::Type(pt) => (
+                if let syn::Pat::Ident(pi) = &*pt.pat { Some(pi.ident.to_string()) } else { None },
+                norm(&tokens(&*pt.ty)),
+            ),
+            _ => (None, String::new()),
+        };
+        if let Some(n) = name {
+            let by_init = l.init.as_ref().map(|i| {
+                let t = norm(&tokens(&*i.expr));
+                self.expr_is_unordered(&i.expr) || t.starts_with("HashSet::") || t.starts_with("HashMap::") || t.starts_with("std::collections::HashSet::") || t.starts_with("std::collections::HashMap::")
+                    || (t.ends_with(".collect()") && mentions_unordered(&ty))
+                    || t.contains("collect::<HashSet") || t.contains("collect::<HashMap") || t.contains("collect::<std::collections::Hash")
+            }).unwrap_or(false);
+            if by_init || mentions_unordered(&ty) {
+                self.unordered_vars.push(n);
+            }
+        }
+        syn::visit::visit_local(self, l);
+    }
+    fn visit_expr_method_call(&mut self, m: &'ast syn::ExprMethodCall) {
+        let name = m.method.to_string();
+        if self.expr_is_unordered(&m.receiver) && !ORDER_FREE.contains(&name.as_str()) {
+            self.sites.push(format!("{}: .{}() on an unordered container ({})", self.fname, name, norm(&tokens(&*m.receiver))));
+        }
+        if IMPURE.contains(&name.as_str()) {
+            self.sites.push(format!("{}: call of {}", self.fname, name));
+        }
+        syn::visit::visit_expr_method_call(self, m);
+    }
+    fn visit_expr_for_loop(&mut self, f: &'ast syn::ExprForLoop) {
+        if self.expr_is_unordered(&f.expr) {
+            self.sites.push(format!("{}: for-loop over an unordered container ({})", self.fname, norm(&tokens(&*f.expr))));
+        }
+        syn::visit::visit_expr_for_loop(self, f);
+    }
+    fn visit_path(&mut self, p: &'ast syn::Path) {
+        for seg in &p.segments {
+            let s = seg.ident.to_string();
+            if IMPURE.contains(&s.as_str()) && s != "now" && s != "Cell" {
+                self.sites.push(format!("{}: mentions {}", self.fname, s));
+            }
+        }
+        if let Some(last) = p.segments.last() {
+            if last.ident == "now" {
+                self.sites.push(format!("{}: reads the clock ({})", self.fname, norm(&tokens(p))));
+            }
+        }
+        syn::visit::visit_path(self, p);
+    }
+}
+
+/// sites in the non-test, non-codec functions of one message file where the result may depend on
+/// more than the message
+fn nondeterminism_sites(file: &syn::File) -> Vec<String> {
+    use syn::visit::Visit;
+    let mut fns: Vec<(String, &syn::Signature, &syn::Block)> = Vec::new();
+    fn collect<'a>(items: &'a [syn::Item], out: &mut Vec<(String, &'a syn::Signature, &'a syn::Block)>) {
+        for it in items {
+            match it {
+                syn::Item::Fn(f) => out.push((f.sig.ident.to_string(), &f.sig, &f.block)),
+                syn::Item::Impl(im) => {
+                    for ii in &im.items {
+                        if let syn::ImplItem::Fn(f) = ii {
+                            out.push((f.sig.ident.to_string(), &f.sig, &f.block));
+                        }
+                    }
+                }
+                syn::Item::Mod(m) => {
+                    let is_test = m.attrs.iter().any(|a| tokens(a).contains("cfg (test)"));
+                    if !is_test {
+                        if let Some((_, items)) = &m.content {
+                            collect(items, out);
+                        }
+                    }
+                }
+                _ => {}
+            }
+        }
+    }
+    collect(&file.items, &mut fns);
+    let unordered_fns: Vec<String> = fns
+        .iter()
+        .filter(|(_, sig, _)| match &sig.output { syn::ReturnType::Type(_, t) => mentions_unordered(&norm(&tokens(&**t))), _ => false })
+        .map(|(n, _, _)| n.clone())
+        .collect();
+    let mut sites = Vec::new();
+    for (name, sig, block) in &fns {
+        if name == "parse_from_block4" || name == "to_mt_string" || name == "to_ordered_fields" {
+            continue;
+        }
+        let mut sc = Scan { unordered_fns: &unordered_fns, unordered_vars: Vec::new(), sites: Vec::new(), fname: name.clone() };
+        for a in &sig.inputs {
+            if let syn::FnArg::Typed(pt) = a {
+                if mentions_unordered(&norm(&tokens(&*pt.ty))) {
+                    if let syn::Pat::Ident(pi) = &*pt.pat {
+                        sc.unordered_vars.push(pi.ident.to_string());
+                    }
+                }
+            }
+        }
+        sc.visit_block(block);
+        sites.extend(sc.sites);
+    }
+    sites
+}
+
 pub fn run(repo: &PathBuf, out: &PathBuf) -> R<()> {
     let mut v = String::from(HEADER);
     v += "Inductive vgroup :=\n| GOpt (name : bytes) (checks_stop : bool)\n| GVec (name : bytes) (passes_flag : bool) (checks_stop : bool).\n\n";
@@ -155,8 +312,10 @@ pub fn run(repo: &PathBuf, out: &PathBuf) -> R<()> {
     let mut delegs = Vec::new();
     let mut aware = Vec::new();
     let mut js = serde_json::Map::new();
+    let mut nondet = Vec::new();
     for (mt, p) in list_message_files(repo)? {
         let file = parse_file(&p)?;
+        nondet.push((mt.clone(), nondeterminism_sites(&file)));
         let mut fs = Vec::new();
         find_fns(&file.items, "validate_network_rules", &mut fs);
         let inherent: Vec<&FoundFn> = fs.iter().filter(|f| f.trait_.is_none() && f.self_ty.as_deref() == Some(mt.as_str())).collect();
@@ -210,6 +369,10 @@ pub fn run(repo: &PathBuf, out: &PathBuf) -> R<()> {
     v += &format!(
         "(* callees that receive the flag: body has the sequential push/return shape *)\nDefinition stop_aware_callees : list (bytes * bool) := [\n  {}\n].\n\n",
         aware.iter().map(|(a, b)| format!("({}, {})", cq(a), b)).collect::<Vec<_>>().join(";\n  ")
+    );
+    v += &format!(
+        "(* rule code whose result may depend on more than the message: iteration over std HashSet/HashMap, clock, RNG, interior mutability *)\nDefinition nondeterminism_sites : list (bytes * list bytes) := [\n  {}\n].\n\n",
+        nondet.iter().map(|(a, b)| format!("({}, [{}])", cq(a), b.iter().map(|x| cq(x)).collect::<Vec<_>>().join("; "))).collect::<Vec<_>>().join(";\n  ")
     );
     // adapters
     let sm = parse_file(&src(repo, "swift_message.rs"))?;
